@@ -38,7 +38,7 @@ static std::string rj(const std::string &part, const std::vector<std::string> &s
 
 // ---- (1) predicate conditions, terminate, or/and nestings ----
 // shape: how the condition under test is built from the two predicate operands a, b
-static const char *SHAPES[] = {"a", "or(a,b)", "and(a,b)", "or(a,and(a,b))", "and(or(a,b),a)", "or(and(a,b),and(b,a))", "never", "always", "or(never,a)", "and(always,b)"};
+static const char *SHAPES[] = {"a", "or(a,b)", "and(a,b)", "or(a,and(a,b))", "and(or(a,b),a)", "or(and(a,b),and(b,a))", "never", "always", "or(never,a)", "and(always,b)", "a@period0", "or(a@period0,b)"};
 struct Pred
 {
     bool a = false, b = false;
@@ -70,7 +70,16 @@ static void runPredicates(const vf::Args &args, vf::Report &rep, const std::stri
                     return pp->b;
                 });
                 std::string sh = shape;
-                ob::PlannerTerminationCondition C = sh == "a" ? A : sh == "or(a,b)" ? ob::plannerOrTerminationCondition(A, B) : sh == "and(a,b)" ? ob::plannerAndTerminationCondition(A, B) : sh == "or(a,and(a,b))" ? ob::plannerOrTerminationCondition(A, ob::plannerAndTerminationCondition(A, B)) : sh == "and(or(a,b),a)" ? ob::plannerAndTerminationCondition(ob::plannerOrTerminationCondition(A, B), A) : sh == "or(and(a,b),and(b,a))" ? ob::plannerOrTerminationCondition(ob::plannerAndTerminationCondition(A, B), ob::plannerAndTerminationCondition(B, A)) : sh == "never" ? ob::plannerNonTerminatingCondition() : sh == "always" ? ob::plannerAlwaysTerminatingCondition() : sh == "or(never,a)" ? ob::plannerOrTerminationCondition(ob::plannerNonTerminatingCondition(), A) : ob::plannerAndTerminationCondition(ob::plannerAlwaysTerminatingCondition(), B);
+                // a predicate condition given an evaluation period of exactly 0: evaluated directly, like the plain form (no thread)
+                ob::PlannerTerminationCondition A0(
+                    [pp] {
+                        ++pp->callsA;
+                        return pp->a;
+                    },
+                    0.0);
+                if (sh == "a@period0" || sh == "or(a@period0,b)")
+                    A = A0;
+                ob::PlannerTerminationCondition C = (sh == "a" || sh == "a@period0") ? A : sh == "or(a@period0,b)" ? ob::plannerOrTerminationCondition(A, B) : sh == "or(a,b)" ? ob::plannerOrTerminationCondition(A, B) : sh == "and(a,b)" ? ob::plannerAndTerminationCondition(A, B) : sh == "or(a,and(a,b))" ? ob::plannerOrTerminationCondition(A, ob::plannerAndTerminationCondition(A, B)) : sh == "and(or(a,b),a)" ? ob::plannerAndTerminationCondition(ob::plannerOrTerminationCondition(A, B), A) : sh == "or(and(a,b),and(b,a))" ? ob::plannerOrTerminationCondition(ob::plannerAndTerminationCondition(A, B), ob::plannerAndTerminationCondition(B, A)) : sh == "never" ? ob::plannerNonTerminatingCondition() : sh == "always" ? ob::plannerAlwaysTerminatingCondition() : sh == "or(never,a)" ? ob::plannerOrTerminationCondition(ob::plannerNonTerminatingCondition(), A) : ob::plannerAndTerminationCondition(ob::plannerAlwaysTerminatingCondition(), B);
                 bool tA = false, tB = false, tC = false;
                 std::string extra = "\"shape\":" + vf::jesc(shape) + ",\"init\":" + std::to_string(init);
                 for (size_t i = 0; i < seq.size(); ++i)
@@ -84,14 +93,14 @@ static void runPredicates(const vf::Args &args, vf::Report &rep, const std::stri
                     {
                         C.terminate();
                         tC = true;
-                        if (sh == "a")
+                        if (sh == "a" || sh == "a@period0")
                             tA = true;  // C is a copy of A: they share one implementation object
                     }
                     else if (op == "Ta")
                     {
                         A.terminate();
                         tA = true;
-                        if (sh == "a")
+                        if (sh == "a" || sh == "a@period0")
                             tC = true;
                     }
                     else if (op == "Tb")
@@ -102,7 +111,7 @@ static void runPredicates(const vf::Args &args, vf::Report &rep, const std::stri
                     else
                     {
                         bool va = P.a || tA, vb = P.b || tB;
-                        bool want = sh == "a" ? va : sh == "or(a,b)" ? (va || vb) : sh == "and(a,b)" ? (va && vb) : sh == "or(a,and(a,b))" ? (va || (va && vb)) : sh == "and(or(a,b),a)" ? ((va || vb) && va) : sh == "or(and(a,b),and(b,a))" ? (va && vb) : sh == "never" ? false : sh == "always" ? true : sh == "or(never,a)" ? va : vb;
+                        bool want = (sh == "a" || sh == "a@period0") ? va : (sh == "or(a,b)" || sh == "or(a@period0,b)") ? (va || vb) : sh == "and(a,b)" ? (va && vb) : sh == "or(a,and(a,b))" ? (va || (va && vb)) : sh == "and(or(a,b),a)" ? ((va || vb) && va) : sh == "or(and(a,b),and(b,a))" ? (va && vb) : sh == "never" ? false : sh == "always" ? true : sh == "or(never,a)" ? va : vb;
                         want = want || tC;
                         long ca = P.callsA, cb = P.callsB;
                         bool got = C.eval(), got2 = C();
@@ -230,6 +239,9 @@ static void runTimed(const vf::Args &args, vf::Report &rep, const std::vector<st
         auto one = [&](const std::vector<std::string> &seq) {
             vf::virtualNow() = T0;
             ob::PlannerTerminationCondition c = ob::timedPlannerTerminationCondition((double)durs[di] * 1e-9);
+            // the two-argument form with a checking interval of exactly 0 (and, for duration 0, an interval that is clamped to 0): no
+            // evaluation thread is started for a period of 0, so it must behave exactly like the one-argument form
+            ob::PlannerTerminationCondition c0 = ob::timedPlannerTerminationCondition((double)durs[di] * 1e-9, durs[di] == 0 ? 0.5 : 0.0);
             // the end time is computed in the clock's own resolution
             auto dur = std::chrono::duration_cast<ompl::time::duration>(std::chrono::duration<double>((double)durs[di] * 1e-9));
             long long end = T0 + std::chrono::duration_cast<std::chrono::nanoseconds>(dur).count();
@@ -247,11 +259,14 @@ static void runTimed(const vf::Args &args, vf::Report &rep, const std::vector<st
                 else if (op == "T")
                 {
                     c.terminate();
+                    c0.terminate();
                     term = true;
                 }
                 else
                 {
                     bool want = vf::virtualNow() > end || term, got = c.eval();
+                    if (c0.eval() != want)
+                        rep.fail(std::string("C18|timed|interval-0|") + (want ? "false-after-duration" : "true-before-duration"), "timed condition of " + std::to_string(durs[di]) + " ns with a checking interval of 0 evaluated " + (want ? "false" : "true") + " at +" + std::to_string(vf::virtualNow() - T0) + " ns", rj("timed", seq, extra));
                     rep.transitions++;
                     if (got != want)
                         rep.fail(std::string("C18|timed|") + (want ? "false-after-duration" : "true-before-duration"), "timed condition of " + std::to_string(durs[di]) + " ns evaluated " + (got ? "true" : "false") + " at +" + std::to_string(vf::virtualNow() - T0) + " ns", rj("timed", seq, extra));
